@@ -3,7 +3,8 @@ Model of the PT-utilization path (C11), at the level of *parsed* compiler-log ro
 
 * `pipeline/rcu_utilization.py`
   - `RCUUtilizationContext._handle_category` (`-opCat<X>` → `X`, `-NA` → `NotAvailable`, no splitter →
-    `Total` — sic), `_add_kernel` (kernel key `<name> Cmpt Exec`; the first row of a kernel decides its
+    `NotAvailable` since /repo 3b111fa; it used to be `Total`, see `handleCategoryOld` in Props/C11),
+    `_add_kernel` (kernel key `<name> Cmpt Exec`; the first row of a kernel decides its
     cycle entry unless that row says 0, in which case nothing is stored and a later non-zero row of the
     same kernel is taken; the first row of a kernel decides its category), `get_cycles` (0 if unknown);
   - `compute_utilization` (`ideal = cycles · (1/core)`, `utilization = |ideal/dur|` unless `dur` is
@@ -19,7 +20,8 @@ Model of the PT-utilization path (C11), at the level of *parsed* compiler-log ro
 * `FLEX` dialect `acc_kernel = is.name;Cmpt Exec$`, `acc_event_cat = has.args.TS1` (kernel slices).
 
 With a single table the fingerprint match always selects that table (`update_fprint_matches` takes the
-best candidate whatever its similarity), so fingerprints are not modelled.  The line regexes of
+best candidate whatever its similarity, and since /repo 4ba5a45 runs once, so a table without kernel rows
+or with only zero entries is fine: every kernel is then unknown), so fingerprints are not modelled.  The line regexes of
 `_process_table_line` are exercised by the correspondence, not modelled.  Core Lean only.
 -/
 import AiuVerif.Basic
@@ -44,7 +46,7 @@ structure LogRow where
 def handleCategory : CatTag → String
   | .opcat c => c
   | .na => "NotAvailable"
-  | .none => "Total"
+  | .none => "NotAvailable"
 
 def keyOfRow (r : LogRow) : String := r.kernel ++ " Cmpt Exec"
 
